@@ -2,26 +2,14 @@ package scengen
 
 import (
 	"bytes"
-	"sync"
 
 	"gopkg.in/yaml.v2"
 )
 
-// mergeKeyAlias is what yKVs writes for the map key `<<`: yaml.v2 emits that
-// key unquoted (it would read back as a merge key), so RenderYAML marshals an
-// alias and replaces it by the quoted form `"<<"` in the text.
-var mergeKeyAlias = "<<"
-
-var renderMu sync.Mutex
-
 func yKVs(k KVs) yaml.MapSlice {
 	out := yaml.MapSlice{}
 	for _, e := range k {
-		key := e.K
-		if key == "<<" {
-			key = mergeKeyAlias
-		}
-		out = append(out, yaml.MapItem{Key: key, Value: e.V})
+		out = append(out, yaml.MapItem{Key: e.K, Value: e.V})
 	}
 	return out
 }
@@ -186,26 +174,41 @@ func YAMLDoc(m Model) yaml.MapSlice {
 // RenderYAML writes the description in the YAML syntax. Locals and Exprs are
 // HCL-only and do not appear: every attribute shows its plain value.
 func RenderYAML(m Model) []byte {
-	renderMu.Lock()
-	defer renderMu.Unlock()
+	doc := YAMLDoc(m)
+	if n := renameKey(doc, "<<", "<<"); n > 0 {
+		// yaml.v2 emits the map key `<<` unquoted (it would read back as a
+		// merge key): marshal an alias and write the quoted key in its place.
+		for alias := "zzMERGEKEYzz"; ; alias += "z" {
+			doc = YAMLDoc(m)
+			renameKey(doc, "<<", alias)
+			b := marshalYAML(doc)
+			if bytes.Count(b, []byte(alias)) != n {
+				continue // the alias occurs in a string of the description: take another one
+			}
+			return bytes.ReplaceAll(b, []byte(alias), []byte(`"<<"`))
+		}
+	}
+	return marshalYAML(doc)
+}
+
+// renameKey renames the map key from to to everywhere in v (in place) and returns the number of such keys.
+func renameKey(v any, from, to string) int {
 	n := 0
-	m.WalkStrings(func(path, s string) {
-		if s == "<<" && len(path) > 4 && path[len(path)-4:] == ".key" {
-			n++
+	switch x := v.(type) {
+	case yaml.MapSlice:
+		for i := range x {
+			if k, ok := x[i].Key.(string); ok && k == from {
+				x[i].Key = to
+				n++
+			}
+			n += renameKey(x[i].Value, from, to)
 		}
-	})
-	if n == 0 {
-		return marshalYAML(YAMLDoc(m))
-	}
-	defer func() { mergeKeyAlias = "<<" }()
-	for alias := "zzMERGEKEYzz"; ; alias += "z" {
-		mergeKeyAlias = alias
-		b := marshalYAML(YAMLDoc(m))
-		if bytes.Count(b, []byte(alias)) != n {
-			continue // the alias occurs in a string of the description: take another one
+	case []yaml.MapSlice:
+		for _, e := range x {
+			n += renameKey(e, from, to)
 		}
-		return bytes.ReplaceAll(b, []byte(alias), []byte(`"<<"`))
 	}
+	return n
 }
 
 func marshalYAML(doc yaml.MapSlice) []byte {
